@@ -35,6 +35,7 @@ static void run_case(Rng &r)
     o.max_ports = 24;
     o.max_depth = 3;
     o.p_sub_spec = 0.12;
+    o.p_overlap_sub = 0.3;
     Tree t;
     tg::gen_tree(t, r, o);
     std::string tdesc = tg::render_table(t.root);
